@@ -47,11 +47,14 @@ CLAIMS = {
         text='Lean 4 theorems about faithful models of bisect and chandrupatla (any number of lanes, any maxiter): bisect '
              'bracket/sign/width invariant, result within tol/2 of a root of a continuous function (IVT), lane independence, '
              'rejection of invalid brackets; chandrupatla sign-bracket invariant, evaluation points clipped into the bracket, '
-             'exact zero when flagged by fm == 0, scalar = one-element vector, lane independence; tied bit-for-bit to the real '
-             'functions on a shared function-spec language (results, iteration counts, mutated caller arrays).',
+             'exact zero when flagged by fm == 0, scalar = one-element vector, lane independence; BOTH ties: the per-lane '
+             'arithmetic, masks, defaults and loop skeleton of both routines are regenerated from the source on every run '
+             '(gen_rootfind) and Props/C18b proves generated = model for every definition and restates the headline theorems '
+             'about the generated functions; and the model is tied bit-for-bit to the real functions on a shared function-spec '
+             'language (results, iteration counts, caller arrays untouched, bracket/probability dtypes).',
         note='convergence of chandrupatla within the iteration cap is partial (no proved rate); reversed brackets accepted by '
              'chandrupatla is a recorded finding; exp-based families compared within tolerance',
-        tech='Lean 4 proof over a hand-written model + bit-exact correspondence on a shared spec language', ref='5 C18'),
+        tech='Lean 4 proof over a translator-regenerated model bridged to a hand model + bit-exact correspondence on a shared spec language', ref='5 C18'),
     'C02': dict(
         text='Lean 4 theorems over R for any number of rows/columns: the executable Pearson model (pandas one-pass Welford, '
              'NaN as none) equals the textbook coefficient, symmetry, unit diagonal for non-constant score columns, range, '
@@ -69,8 +72,11 @@ CLAIMS = {
              'counter-example for the former behaviour), Series container accepted, Schur complement symmetric and PSD '
              '(Matrix.PosDef.fromBlocks22), conditional mean/covariance formulas; tied to _get_conditional_distribution and to '
              'sample under replayed multivariate_normal draws.',
-        note='that N(mu_bar, Sigma_bar) is the conditional law of a partitioned normal is the classical theorem (partial: '
-             'algebraic core proved); np.linalg.inv is a parameter with hypothesis; statistical bands only in deep search',
+        note='Props/C12b PROVES the classical theorem over Mathlib\'s multivariateGaussian: residual independent of the '
+             'conditioning block and N(0, Schur complement), joint law = marginal compProd the Markov kernel z -> N(G z, Sigma_bar), '
+             'condDistrib a.e. equal to it, the sampling scheme "draw N(0, Sigma_bar), add G z" reproduces the joint law, and '
+             'the (mean, cov) the model hands to the sampler IS that kernel at z; np.linalg.inv is a parameter with hypothesis; '
+             'that numpy draws from N(mean, cov) is trusted; statistical bands only in deep search',
         tech='Lean 4 proof over a hand-written model with as-found/repaired variants + correspondence on recorded draws',
         ref='5 C12'),
     'C15': dict(
@@ -179,7 +185,9 @@ CLAIMS = {
              'bound, >= -deficit with the deficit bounded by Phi(-5 sigma/h), limits, derivative = kernel density; '
              'percent_point pre-processing (range error, +-inf mapping), residual signs at the bracket, root existence (IVT), '
              'monotonicity; Props/C03b instantiates Phi with the true normal CDF (Mathlib gaussianReal) and bounds the deficit '
-             'below 3.9e-6; tied by translation validation (own erfc-based Phi, 1e-14) and bitwise forwarding checks.',
+             'below 3.9e-6; Props/C03c PROVES the family-coherence hypothesis for the closed forms of uniform, norm, loglaplace and '
+             'truncnorm at every admissible parameter (so for these families the laws hold given only that scipy computes the '
+             'closed forms); tied by translation validation (own erfc-based Phi, 1e-14) and bitwise forwarding checks.',
         note='scipy family coherence is a hypothesis structure validated on a grid each run; the KDE range clause holds only up '
              'to the truncation deficit (stated exactly); the upper-bracket clause is false near 1 (recorded finding)',
         tech='Lean 4 proof over translator-regenerated definitions + translation validation at Float', ref='5 C03'),
